@@ -57,6 +57,24 @@ type simTransport struct {
 	down                atomic.Bool
 	afterShutdownWrites atomic.Int64
 	shut                atomic.Bool
+	// a hung process: its sockets stay open (connections are accepted and bytes swallowed) but nothing answers
+	hung      atomic.Bool
+	hungMu    sync.Mutex
+	hungConns []net.Conn
+	// reads this node has pending on streams to hung peers (each must end at the stream's deadline)
+	pendingHungReads atomic.Int64
+}
+
+// trackedConn counts the reads in flight on a stream to a hung peer
+type trackedConn struct {
+	net.Conn
+	ctr *atomic.Int64
+}
+
+func (c *trackedConn) Read(p []byte) (int, error) {
+	c.ctr.Add(1)
+	defer c.ctr.Add(-1)
+	return c.Conn.Read(p)
 }
 
 func (sn *simNet) newTransport(ip string, port int) *simTransport {
@@ -166,6 +184,14 @@ func (t *simTransport) DialTimeout(addr string, timeout time.Duration) (net.Conn
 	bad := dst == nil || dst.down.Load() || t.down.Load() || sn.blocked[[2]string{t.addr, addr}] || sn.blocked[[2]string{addr, t.addr}]
 	lat := sn.latency()
 	sn.mu.Unlock()
+	if dst != nil && dst.hung.Load() && !t.down.Load() {
+		a, b := net.Pipe()
+		dst.hungMu.Lock()
+		dst.hungConns = append(dst.hungConns, b)
+		dst.hungMu.Unlock()
+		go io.Copy(io.Discard, b)
+		return &trackedConn{Conn: a, ctr: &t.pendingHungReads}, nil
+	}
 	if bad {
 		time.Sleep(lat)
 		return nil, &net.OpError{Op: "dial", Net: "tcp", Err: fmt.Errorf("connection refused")}
@@ -212,6 +238,7 @@ type simNode struct {
 	left       bool
 	maxScore   int
 	delGot     int
+	ubq        [][]byte // pending user broadcasts (each handed out once)
 	onNodeMeta func() // one-shot hook run inside the NodeMeta callback (interleaving control)
 }
 
@@ -268,7 +295,28 @@ func (n *simNode) NodeMeta(limit int) []byte {
 	return n.meta
 }
 func (n *simNode) NotifyMsg(b []byte)                         { n.mu.Lock(); n.delGot++; n.mu.Unlock() }
-func (n *simNode) GetBroadcasts(overhead, limit int) [][]byte { return nil }
+// GetBroadcasts hands out pending user broadcasts, each once, as many as fit
+func (n *simNode) GetBroadcasts(overhead, limit int) [][]byte {
+	n.mu.Lock()
+	defer n.mu.Unlock()
+	var out [][]byte
+	used := 0
+	for len(n.ubq) > 0 && used+overhead+len(n.ubq[0]) <= limit {
+		used += overhead + len(n.ubq[0])
+		out = append(out, n.ubq[0])
+		n.ubq = n.ubq[1:]
+	}
+	return out
+}
+
+// queueBurst queues k one-byte user broadcasts
+func (n *simNode) queueBurst(k int) {
+	n.mu.Lock()
+	for i := 0; i < k; i++ {
+		n.ubq = append(n.ubq, []byte{byte('a' + i%26)})
+	}
+	n.mu.Unlock()
+}
 func (n *simNode) LocalState(join bool) []byte                { return nil }
 func (n *simNode) MergeRemoteState(buf []byte, join bool)     {}
 
@@ -361,6 +409,22 @@ func (n *simNode) crash() {
 	n.m.Shutdown()
 }
 
+// hang: the process stops (no packets in or out) but its listening socket stays open
+func (n *simNode) hang() {
+	n.crashed = true
+	n.tr.hung.Store(true)
+	n.m.Shutdown()
+}
+
+func (t *simTransport) closeHung() {
+	t.hungMu.Lock()
+	for _, c := range t.hungConns {
+		c.Close()
+	}
+	t.hungConns = nil
+	t.hungMu.Unlock()
+}
+
 func (n *simNode) sampleScore() {
 	if s := n.m.GetHealthScore(); s > n.maxScore {
 		n.maxScore = s
@@ -418,6 +482,7 @@ func (cl *simCluster) shutdownAll() {
 		if !n.crashed {
 			n.m.Shutdown()
 		}
+		n.tr.closeHung()
 	}
 	// background activity ends within one awareness-scaled probe interval (plus stream timeouts)
 	time.Sleep(time.Duration(cl.cfg.awareMax)*cl.cfg.probeInterval + 5*time.Second)
